@@ -56,14 +56,6 @@ Proof.
   eapply ok_items_follow; [apply IF; reflexivity | exact H].
 Qed.
 
-Lemma stray_inertf c : inertf (hd_error (stray_text c)).
-Proof.
-  destruct c as [|k|x]; cbn [stray_text].
-  - exact inertf_125.
-  - destruct k; [exact inertf_36 | exact inertf_92 | exact inertf_92].
-  - exact inertf_92.
-Qed.
-
 Theorem prefix_closing cx d c g :
   ok_doc cx d = true -> stray_wf c ->
   parse_top (unparse d ++ stray_text c ++ g) true cx (walker_state cx)
